@@ -97,7 +97,13 @@ def c10_document(E, with_groups=("none", "reactions+metabolites", "reactions+met
     old = cfg.bounds
     cfg.bounds = cfgb
     try:
-        m = base_model(E, groups=False)
+        from vlib import ops as _ops
+        degenerate = E.pick("degenerate_members", ["none", "reaction-without-metabolites+metabolite-in-no-reaction"])
+        _ops.DEGENERATE[0] = degenerate != "none"
+        try:
+            m = base_model(E, groups=False)
+        finally:
+            _ops.DEGENERATE[0] = True
         r1 = m.reactions.R1
         kind = E.pick("bounds_kind", ["finite", "ub=+inf", "lb=-inf", "both-inf", "ub=0", "lb=default-lb", "ub=default-ub",
                                       "factory-defaults(-1000,1000)"])
@@ -146,11 +152,15 @@ def c10_document(E, with_groups=("none", "reactions+metabolites", "reactions+met
         grp = E.pick("groups", list(with_groups))
         if grp != "none":
             r2 = m.reactions.get_by_id("R2-a(b)" if ids == "awkward" else "R2")
+            from cobra import Metabolite
+            twin = Metabolite("R1", compartment="c", name="named like a reaction")      # ids are unique per kind only
+            m.add_metabolites([twin])
             m.add_groups([Group("G1", name="group one", kind="partonomy",
                                 members=[m.reactions.R1, m.metabolites.A] + ([m.genes.g1] if grp.endswith("genes") else [])),
                           Group("G-2" if ids == "awkward" else "G2", name="second", kind="collection",
                                 members=[r2, m.metabolites.get_by_id("b-1.x" if ids == "awkward" else "B")]
-                                + ([m.genes.get_by_id("3-g" if ids == "awkward" else "g3")] if grp.endswith("genes") else []))])
+                                + [twin] + ([m.genes.get_by_id("3-g" if ids == "awkward" else "g3")] if grp.endswith("genes") else [])),
+                          Group("G3", name="no members yet", kind="classification")])
         E.note(direction=direction, config_bounds=str(cfgb), bounds_kind=kind, groups=grp, identifiers=ids, objective=objkind)
         a = observe(m)
         number = env.Float if E.symbolic else float
@@ -169,7 +179,7 @@ def c10_document(E, with_groups=("none", "reactions+metabolites", "reactions+met
         if not E.symbolic:
             _, errors = validate_sbml_model(io.StringIO(text))
             bad = {k: v[:2] for k, v in errors.items() if v and k in ("SBML_FATAL", "SBML_ERROR", "SBML_SCHEMA_ERROR", "COBRA_FATAL", "COBRA_ERROR")}
-            E.prove(not bad, "written-document-validates", errors=str(bad)[:300], objective=objkind)
+            E.prove(not bad, "written-document-validates", errors=str(bad)[:300], objective=objkind, degenerate=degenerate)
         b = observe(m2)
         skip = ("index_ok",)
         for o in (a, b):
